@@ -56,6 +56,10 @@ def target(rng, kind, N):
                 out = out + t
             return out
         return f
+    if kind == "witness-sparse":
+        # fixed witness of the listed finding C14/cross-sparse-target: rank one, 23 of 27 entries are exact zeros
+        a, b, c = tn.tensor([2., 1., -1.], dtype=tn.float64), tn.tensor([2., 4., 0.], dtype=tn.float64), tn.tensor([1., 0., 0.], dtype=tn.float64)
+        return lambda I: a[I[:, 0]] * b[I[:, 1]] * c[I[:, 2]]
     if kind == "smooth":
         return lambda I: 1.0 / (2.0 + I.sum(1).to(tn.float64))
     return lambda I: tn.sin(0.3 * I.sum(1).to(tn.float64)) + 2.0
@@ -68,6 +72,14 @@ def dense_target(f, N):
 
 def lst(rows):
     return [len(rows)] + [[len(r)] + list(r) for r in rows]
+
+
+def shape_break(res, label, where, got, want):
+    """the pivots are decoded with a grid other than (index-set size, mode size) of the model: the correspondence no longer checks"""
+    res.violation({"property": "C14", "kind": "correspondence", "class": "index-bookkeeping/" + label, "case": "unravel at %s" % where,
+                   "impl_outcome": "pivot positions decoded on a %s grid" % (tuple(got),), "model_outcome": "grid %s (Cross.leftUpdate/rightUpdate/rightInit)" % (tuple(want),),
+                   "note": "the implementation decodes maxvol positions with other dimensions than the Lean model of the index bookkeeping"}, no_input=True)
+    return None
 
 
 def replay_cross(res, events, N, label):
@@ -84,7 +96,9 @@ def replay_cross(res, events, N, label):
         kind, piv, shape = ev[pos]; pos += 1
         if kind != "unravel":
             return "event order: expected the initialisation unravel for k=%d" % k
-        n = shape[1]
+        n = N[k]
+        if tuple(shape) != (len(Idx[k + 1]), n):
+            return shape_break(res, label, "initialisation k=%d" % k, shape, (len(Idx[k + 1]), n))
         new = [[p % n] + Idx[k + 1][p // n] for p in piv]
         lines.append(J("rightinit", lst(Idx[k + 1]), n, len(piv), piv)); expect.append(("set", new))
         Idx[k] = new
@@ -105,12 +119,16 @@ def replay_cross(res, events, N, label):
         if kind != "unravel":
             return "event order: expected an unravel after the call at %s k=%d" % (direction, k)
         if direction == "LR":
-            n = shape[1]
+            n = N[k]
+            if tuple(shape) != (len(Idx[k]), n):
+                return shape_break(res, label, "left-to-right k=%d" % k, shape, (len(Idx[k]), n))
             new = [Idx[k][p // n] + [p % n] for p in piv]
             lines.append(J("leftupdate", lst(Idx[k]), n, len(piv), piv)); expect.append(("set", new))
             Idx[k + 1] = new
         else:
-            r = shape[1]
+            r = len(Idx[k + 2])
+            if tuple(shape) != (N[k + 1], r):
+                return shape_break(res, label, "right-to-left k=%d" % k, shape, (N[k + 1], r))
             new = [[p // r] + Idx[k + 2][p % r] for p in piv]
             lines.append(J("rightupdate", lst(Idx[k + 2]), r, len(piv), piv)); expect.append(("set", new))
             Idx[k + 1] = new
@@ -137,6 +155,8 @@ def cross_case(res, rng, tier, ci, stats):
     eps = 10.0 ** rng.uniform(-10, -3)
     seed = rng.randrange(1 << 30)
     start = rng.random() < 0.25
+    if ci == 0:
+        d, N, kind, eps, start, small = 3, [3, 3, 3], "witness-sparse", 6.6e-8, False, True
     label = "dmrg_cross/%s/d%d%s%s" % (kind, d, "/small-modes" if small else "", "/start" if start else "")
     box = {"calls": []}
     events = []
